@@ -157,7 +157,7 @@ def structured_specs(tier: str, seed: int, families=None, custom_info=True):
         return families is None or f in families
 
     if want("hamming"):
-        for mu in range(2, 7 if T else 5):
+        for mu in range(2, 7):  # all Hamming codes of the size bound in both tiers (constructions switch branch at larger mu)
             for ext in (False, True):
                 n, k = 2 ** mu - 1 + ext, 2 ** mu - mu - 1
                 for info in _info_variants(n, k, rng, custom_info):
@@ -173,7 +173,7 @@ def structured_specs(tier: str, seed: int, families=None, custom_info=True):
         for k in range(1, 13):
             specs.append({"family": "spc", "k": k})
     if want("rm"):
-        for m in range(1, 7 if T else 5):
+        for m in range(1, 7 if T else 6):
             for r in range(0, m):
                 specs.append({"family": "rm", "r": r, "m": m})
     if want("cyclic"):
